@@ -43,8 +43,6 @@ use cfmodel::model::*;
 
 use super::renamed::Mode;
 
-/// number of filler constants removed to measure how many slots a description needs without tripping the limit
-const PROBE: usize = 100;
 const FILL_BASE: i32 = 100_000;
 
 #[derive(Clone, Debug)]
@@ -222,19 +220,23 @@ impl Tail {
 }
 
 /// How many pool slots (`constant_pool_count`) a writer with a minimal pool needs for `expected`, a description built by
-/// `Tail::build` (possibly renamed): measured by the reference assembler on the description with `PROBE` filler
-/// constants taken away, so that the measurement itself cannot trip over the limit. `None`: not such a description.
-pub fn needed_slots(expected: &SClass) -> Option<u32> {
-	let mut small = expected.clone();
-	let filler = small.fields.first_mut()?.annotations.invisible.first_mut()?.pairs.first_mut()?;
-	let SElementValue::Array(items) = &mut filler.1 else { return None };
-	if items.len() < PROBE || !items.iter().all(|e| matches!(e, SElementValue::Const(b'I', SConst::Int(v)) if *v >= FILL_BASE)) {
+/// `Tail::build` (possibly renamed): measured by the reference assembler on the description without its filler
+/// constants (so that the measurement itself cannot trip over the limit), plus one slot per filler constant — each is an
+/// `int` of its own that nothing else in the class uses. `None`: not such a description.
+pub fn needed_slots(expected: &mut SClass) -> Option<u32> {
+	let slot = &mut expected.fields.first_mut()?.annotations.invisible.first_mut()?.pairs.first_mut()?.1;
+	let SElementValue::Array(items) = slot else { return None };
+	let distinct_fillers = items.iter().enumerate().all(|(j, e)| matches!(e, SElementValue::Const(b'I', SConst::Int(v)) if *v == FILL_BASE + j as i32));
+	if !distinct_fillers {
 		return None;
 	}
-	items.truncate(items.len() - PROBE);
-	let bytes = assemble(&small, &Encoding::default()).ok()?;
-	let count = cfmodel::parse(&bytes).ok()?.pool_count as u32;
-	Some(count + PROBE as u32)
+	let filler = std::mem::take(items);
+	let count = assemble(expected, &Encoding::default()).ok().and_then(|b| cfmodel::parse(&b).ok()).map(|p| p.pool_count as u32);
+	let n = filler.len() as u32;
+	if let SElementValue::Array(items) = &mut expected.fields[0].annotations.invisible[0].pairs[0].1 {
+		*items = filler;
+	}
+	Some(count? + n)
 }
 
 /// `needed_slots` of the tree the real reader and the real renaming make of `class`
@@ -242,7 +244,7 @@ pub fn needed_after_renaming(class: &SClass, mode: Mode) -> Option<u32> {
 	let bytes = assemble(class, &Encoding::default()).ok()?;
 	let tree = vcore::guard(|| duke::read_class(&mut std::io::Cursor::new(&bytes))).ok()?.ok()?;
 	let tree = vcore::guard(|| dukebox::remap::remap_class(&super::renamed::Renamer(mode), tree)).ok()?.ok()?;
-	needed_slots(&cfmodel::duke_proj::project(&tree).ok()?)
+	needed_slots(&mut cfmodel::duke_proj::project(&tree).ok()?)
 }
 
 /// One family of cases: a tail and a renaming; `base` = slots the renamed tree needs beyond its filler constants.
@@ -250,11 +252,23 @@ pub struct Family {
 	pub tail: Tail,
 	pub mode: Mode,
 	pub base: u32,
+	/// the class without filler constants, assembled; the files of the family are this one with the filler spliced in
+	template: Vec<u8>,
+	template_count: u16,
+	/// offset of the byte after the constant pool
+	pool_end: usize,
+	/// offset of the attribute_length of the filler annotation's attribute, and of the num_values of the filler array
+	attr_len_at: usize,
+	num_values_at: usize,
 }
 
-pub const WINDOW: std::ops::RangeInclusive<u32> = 65_529..=65_538;
+/// The slots the renamed trees need. The upper end is what the `grow` renaming can reach: it un-shares three entries,
+/// and the file the tree is read from cannot have more than 65535 slots itself.
+pub fn window(quick: bool) -> std::ops::RangeInclusive<u32> {
+	if quick { 65_529..=65_538 } else { 65_515..=65_538 }
+}
 
-/// The space: every tail x the renamings of the tier (x every target of `WINDOW`, by the caller).
+/// The space: every tail x the renamings of the tier (x every target of `window`, by the caller).
 pub fn families(quick: bool) -> Vec<(Tail, Mode)> {
 	let mut v = Vec::new();
 	for (ti, tail) in tails().into_iter().enumerate() {
@@ -279,7 +293,17 @@ pub fn calibrate(tail: &Tail, mode: Mode) -> Family {
 	let Some(with_400) = needed_after_renaming(&tail.build(400), mode) else {
 		vcore::machinery_fail(&format!("pool-limit/{}: the small instance cannot be measured", tail.label()));
 	};
-	Family { tail: tail.clone(), mode, base: with_400 - 400 }
+	let fail = |what: &str| -> ! { vcore::machinery_fail(&format!("pool-limit/{}: template: {what}", tail.label())) };
+	let template = assemble(&tail.build(0), &Encoding::default()).unwrap_or_else(|e| fail(&format!("{e:?}")));
+	let parsed = cfmodel::parse(&template).unwrap_or_else(|e| fail(&e.msg));
+	let pool_end = parsed.map.iter().find(|e| e.role == cfmodel::parse::Role::AccessFlags).map(|e| e.offset).unwrap_or_else(|| fail("no access flags"));
+	let span = parsed.attribute_spans.iter().find(|s| s.name == "RuntimeInvisibleAnnotations").unwrap_or_else(|| fail("no filler attribute"));
+	// attribute_name_index u16, attribute_length u32, num_annotations u16, type_index u16, num_pairs u16, name_index u16, tag '[', num_values u16
+	let (attr_len_at, tag_at, num_values_at) = (span.start + 2, span.start + 14, span.start + 15);
+	if template.get(tag_at) != Some(&b'[') || template.get(num_values_at..num_values_at + 2) != Some(&[0, 0]) {
+		fail("the filler array is not where it is expected");
+	}
+	Family { tail: tail.clone(), mode, base: with_400 - 400, template, template_count: parsed.pool_count, pool_end, attr_len_at, num_values_at }
 }
 
 impl Family {
@@ -289,5 +313,35 @@ impl Family {
 	/// the class whose renamed tree needs `target` slots
 	pub fn class(&self, target: u32) -> SClass {
 		self.tail.build((target - self.base) as usize)
+	}
+	/// The class file of `class(target)`: the template with the filler spliced in — `n` Integer entries appended to the
+	/// constant pool, `n` elements put into the filler array (the reference assembler needs ~0.2 s for a pool of 65 000
+	/// entries; the caller checks `parse(bytes).class == class(target)` as for every assembled class). `None`: no class
+	/// file can hold that many entries.
+	pub fn bytes(&self, target: u32) -> Option<Vec<u8>> {
+		let n = (target - self.base) as usize;
+		if self.template_count as usize + n > 65_535 || n > 65_535 {
+			return None;
+		}
+		let t = &self.template;
+		let mut out = Vec::with_capacity(t.len() + 8 * n);
+		out.extend_from_slice(&t[..self.pool_end]);
+		for j in 0..n {
+			out.push(3);
+			out.extend_from_slice(&(FILL_BASE + j as i32).to_be_bytes());
+		}
+		let elements_at = self.num_values_at + 2;
+		out.extend_from_slice(&t[self.pool_end..elements_at]);
+		for j in 0..n {
+			out.push(b'I');
+			out.extend_from_slice(&(self.template_count + j as u16).to_be_bytes());
+		}
+		out.extend_from_slice(&t[elements_at..]);
+		out[8..10].copy_from_slice(&(self.template_count + n as u16).to_be_bytes());
+		let shift = 5 * n;
+		let old_len = u32::from_be_bytes([t[self.attr_len_at], t[self.attr_len_at + 1], t[self.attr_len_at + 2], t[self.attr_len_at + 3]]);
+		out[self.attr_len_at + shift..self.attr_len_at + shift + 4].copy_from_slice(&(old_len + 3 * n as u32).to_be_bytes());
+		out[self.num_values_at + shift..self.num_values_at + shift + 2].copy_from_slice(&(n as u16).to_be_bytes());
+		Some(out)
 	}
 }
